@@ -2,5 +2,5 @@ SPECIFICATION Spec
 CONSTANTS
   Impl = "fixed"
   MaxCrash = 3
-INVARIANTS CrashSafe Clean Result Recovers
+INVARIANTS CrashSafe Clean Result ContentAfterRun Recovers
 CHECK_DEADLOCK FALSE
